@@ -81,12 +81,8 @@ class Highlighter(object):
         buffer = ""
         current_type = None
         source_io = io.BytesIO(encode(source))
-        formatter = PlainFormatter()
 
-        def readline():
-            return encode(formatter.remove_format(decode(source_io.readline())))
-
-        tokens = tokenize.tokenize(readline)
+        tokens = tokenize.tokenize(source_io.readline)
         line = ""
         for token_info in tokens:
             token_type, token_string, start, end, _ = token_info
@@ -97,7 +93,7 @@ class Highlighter(object):
 
             if token_type == tokenize.ENDMARKER:
                 # End of source
-                line += "<{}>{}</>".format(self._theme[current_type], buffer)
+                line += self._format_token(current_type, buffer)
                 lines.append(line)
                 break
 
@@ -106,9 +102,7 @@ class Highlighter(object):
                 if diff > 1:
                     lines += [""] * (diff - 1)
 
-                line += "<{}>{}</>".format(
-                    self._theme[current_type], buffer.rstrip("\n")
-                )
+                line += self._format_token(current_type, buffer.rstrip("\n"))
 
                 # New line
                 lines.append(line)
@@ -141,7 +135,7 @@ class Highlighter(object):
                 buffer += token_info.line[current_col : start[1]]
 
             if current_type != new_type:
-                line += "<{}>{}</>".format(self._theme[current_type], buffer)
+                line += self._format_token(current_type, buffer)
                 buffer = ""
                 current_type = new_type
 
@@ -150,9 +144,7 @@ class Highlighter(object):
                 lines.append(line)
                 token_lines = token_string.split("\n")
                 for token_line in token_lines[1:-1]:
-                    lines.append(
-                        "<{}>{}</>".format(self._theme[current_type], token_line)
-                    )
+                    lines.append(self._format_token(current_type, token_line))
 
                 current_line = end[0]
                 buffer = token_lines[-1][: end[1]]
@@ -164,6 +156,17 @@ class Highlighter(object):
             current_line = lineno
 
         return lines
+
+    def _format_token(self, token_type, text):
+        if token_type is None:
+            # No token at all (empty or unavailable source)
+            return text
+
+        if "<" in text:
+            # Text that looks like markup cannot be styled: show it as it is
+            return text.replace("<", "\\<")
+
+        return "<{}>{}</>".format(self._theme[token_type], text)
 
     def line_numbers(self, lines, mark_line=None):
         max_line_length = max(3, len(str(len(lines))))
